@@ -315,7 +315,7 @@ theorem nextFresh_mem (s : St) (cs : List String) (k : String) (hn : nextFresh s
 
 /-! ### one handled event -/
 
-theorem handle_none (s : St) (e : Ev) : handle s e = none ↔ e = .fe .malformed := by
+theorem handle_ne_none (s : St) (e : Ev) : handle s e ≠ none := by
   cases e with
   | fe q => cases q <;> simp [handle, handleFe]
   | ctrl k m => simp [handle]
